@@ -160,7 +160,7 @@ func (fr *Frame) callSiteObligations(b *ssa.BasicBlock, c *ssa.CallCommon, st *S
 			if !ok {
 				panic(unsupported(fmt.Sprintf("call clause of %s: cannot resolve local %q", fr.fn.Name(), lv[0])))
 			}
-			if a, isAlloc := v.(*ssa.Alloc); isAlloc {
+			if a, isAlloc := v.(*ssa.Alloc); isAlloc && a.Comment == lv[0] {
 				pv := fr.get(a)
 				args = append(args, Val{T: ptrElem(a.Type()), S: vc.load(st, vc.locOf(pv))})
 				continue
@@ -270,6 +270,16 @@ func (fr *Frame) callFunc(b *ssa.BasicBlock, f *ssa.Function, c *ssa.CallCommon,
 		fn := "g_uf_" + vc.sorts().shortName(constant.StringVal(k.Value)) + "_" + name[9:]
 		eng.needDecl(fmt.Sprintf("(declare-fun %s ((_ BitVec 64)) %s)", fn, res))
 		return &Val{T: rt, S: app(fn, app("g_iref", args[1].S))}
+	}
+	if strings.HasPrefix(name, "verif_freshslice[") {
+		// the slice's backing array was allocated during this execution of the
+		// function under contract (or the slice has no capacity at all)
+		n0 := vc.frame.next0
+		if n0 == "" {
+			n0 = "g_next0"
+		}
+		sl := args[0].S
+		return &Val{T: types.Typ[types.Bool], S: vc.def("Bool", "freshsl", sOr(sEq(app("g_scap", sl), bvConst(0, 64)), app("bvuge", app("g_sarr", sl), n0)))}
 	}
 	if f.Pkg != nil && name == "verif_fresh" {
 		// the object was allocated during this execution of the function under contract
@@ -595,6 +605,23 @@ func (fr *Frame) frameCheck(b *ssa.BasicBlock, l *Loc, st *State, reach string, 
 	ord := vc.callOrd["framestore"]
 	vc.callOrd["framestore"]++
 	vc.addObl("frame", root, fmt.Sprintf("frame:%s:store#%d", root, ord), reach, g, pos)
+}
+
+// frameCheckRef: a write to the object ref (through copy, an in-place append or
+// a map operation) under condition cond must stay inside the declared frame.
+func (fr *Frame) frameCheckRef(b *ssa.BasicBlock, ref, cond string, st *State, reach string, pos token.Pos, what string) {
+	if fr.pure || !fr.vc.frame.active || !fr.vc.frame.strict {
+		return
+	}
+	vc := fr.vc
+	g := vc.frameAllowed(fr.rootFrame(), ref)
+	if g == "true" {
+		return
+	}
+	root := fr.oblFn()
+	ord := vc.callOrd["frame"+what]
+	vc.callOrd["frame"+what]++
+	vc.addObl("frame", root, fmt.Sprintf("frame:%s:%s#%d", root, what, ord), reach, sImp(cond, g), pos)
 }
 
 // ---------------------------------------------------------------------------
